@@ -329,5 +329,14 @@ pub fn is_view_op(op: &str) -> bool {
 }
 
 pub fn quiet_panics() {
-    std::panic::set_hook(Box::new(|_| {}));
+    if std::env::var("ICVERIF_PANIC_LOCATIONS").is_ok() {
+        // one line per panic with its source location (diagnostics)
+        std::panic::set_hook(Box::new(|info| {
+            if let Some(l) = info.location() {
+                eprintln!("PANIC-AT {}:{}", l.file(), l.line());
+            }
+        }));
+    } else {
+        std::panic::set_hook(Box::new(|_| {}));
+    }
 }
